@@ -88,6 +88,10 @@ package index
 //@   end
 
 //@ func (*singleWidthIndex).forEachDigest
+//@   let ferr := call[dynamic#0]
+//@   let off := call[littleEndian.Uint64#0]
+//@   call[dynamic#0] assert yields_digest_and_offset_of_record_i [C11]: ref(arg0) == ref(digest) && arg1 == off && digestStart == i * s.width && digestEnd == (i + 1) * s.width - 8
+//@   loop[0] step one_record_per_iteration [C11]: i == athead(0, i) + 1 && ferr == nil
 //@   requires bucket [C03,C09,C11]: 8 <= s.width && s.width <= 33554432
 //@   loop[0] invariant cursor [C09]: 0 <= i && i <= segmentCount && segmentCount * s.width <= len(s.index)
 
@@ -129,6 +133,8 @@ package index
 // assumed where one is looked up.
 
 //@ func (*singleWidthIndex).GetAll
+//@   let d, derr := call[multihash.Decode#0]
+//@   call[singleWidthIndex.getAll#0] assert the_keys_digest_and_callback [C03,C07]: ref(arg0) == ref(s) && ref(arg1) == ref(d.Digest) && arg2 == fn
 //@   requires bucket [C03,C09]: 8 <= s.width && s.width <= 33554432 && s.len * s.width <= len(s.index) && s.len <= 281474976710656
 
 //@ func (*multiWidthIndex).forEachDigest
